@@ -151,3 +151,83 @@ func H08_retained() {
 	}
 	vrtReach("C08.history")
 }
+
+// H08b_update_during_subscribe: a retained update (or clear) by another client
+// lands exactly between the two steps a new subscription consists of (the
+// registration in the subscription tree and the lookup of the retained
+// messages - forced by a hook on the topic store at the second of the two
+// provider calls, whichever it is). Whatever the order of the two steps, the
+// new subscription must end up with the current retained message: the last
+// thing it is handed for the topic is the new value (live or retained), or, for
+// a clear, it is not left holding the old value as the final word.
+func H08b_update_during_subscribe() {
+	b := vrtBroker("mockSuccess")
+	pub, _ := b.connect(vrtConnectPkt([]byte("p"), true))
+	q := vrtByte("q")
+	vrtAssume(q <= 1)
+	v1 := &specPkt{Typ: specPUBLISH, Flags: 1 | q<<1, Topic: []byte("r"), Payload: []byte("old")}
+	if q > 0 {
+		v1.ID = 3
+	}
+	vrtExchange(pub, v1)
+	clear := vrtBool("clear")
+	calls := 0
+	inject := func(f []byte) {
+		calls++
+		if calls != 2 {
+			return
+		}
+		v2 := &specPkt{Typ: specPUBLISH, Flags: 1 | q<<1, Topic: []byte("r"), Payload: []byte("new")}
+		if clear {
+			v2.Payload = nil
+		}
+		if q > 0 {
+			v2.ID = 4
+		}
+		m := message.NewPublishMessage()
+		m.SetTopic(v2.Topic)
+		m.SetPayload(v2.Payload)
+		m.SetQoS(q)
+		m.SetRetain(true)
+		b.svr.Publish(m) // (another goroutine's publish, serialised here by the hook)
+	}
+	vrtTopicsHook.onSubscribe = inject
+	vrtTopicsHook.onRetained = inject
+	var got []specPkt
+	wire := vrtBool("wire_subscriber")
+	if wire {
+		s, _ := b.connect(vrtConnectPkt([]byte("s"), true))
+		calls = 0
+		ans := vrtExchange(s, &specPkt{Typ: specSUBSCRIBE, ID: 1, Topics: [][]byte{[]byte("r")}, QoS: []byte{1}})
+		pk, ok := vrtParse(ans)
+		vrtAssert("C08.stream_wellformed", ok && len(pk) >= 1)
+		if len(pk) >= 1 {
+			got = pk[1:]
+		}
+	} else {
+		in := vrtNewInproc()
+		calls = 0
+		vrtAssert("C08.inprocess_subscribe_ok", b.svr.Subscribe("r", 1, &in.fn) == nil)
+		vrtQuiesce()
+		got = in.take()
+	}
+	vrtTopicsHook.onSubscribe, vrtTopicsHook.onRetained = nil, nil
+	vrtAssert("C08.harness_hook_ran", calls >= 2)
+	if clear {
+		// the store is empty now; a subscription that only ever saw "old" as a retained message was given a stale value
+		stale := len(got) > 0
+		if stale {
+			last := got[len(got)-1]
+			stale = vrtBytesEq(last.Payload, []byte("old"))
+		}
+		vrtAssert("C08.new_subscription_not_left_with_cleared_value", !stale)
+		vrtAssert("C08.store_cleared", b.retainedCount() == 0)
+	} else {
+		ok := len(got) > 0
+		if ok {
+			ok = vrtBytesEq(got[len(got)-1].Payload, []byte("new"))
+		}
+		vrtAssert("C08.new_subscription_ends_with_current_value", ok)
+	}
+	vrtReach("C08.update_during_subscribe")
+}
